@@ -689,6 +689,24 @@ func genParseCases(tier string, emit func(op string, fields ...string)) {
 		}
 		emit("PARSEV", hexs(genProgram(nil, depth, i%3 != 0)))
 	}
+	// valid programs behind / around things some tools treat as invisible: a byte order mark,
+	// other zero-width or non-ASCII space runes, a NUL, "--" and "#" (comment openers elsewhere)
+	for i := 0; i < nValid/40; i++ {
+		prog := genProgram(nil, 1+rng.Intn(2), i%2 == 0)
+		junk := pick([]string{"\ufeff", "\ufeff\ufeff", "\u200b", "\u00a0", "\u2028", "\x00", "\ufffe", "\xef\xbb", "-- c\n", "# c\n", "/* c */"})
+		switch i % 3 {
+		case 0:
+			emit("PARSE", hexs(junk+prog))
+		case 1:
+			emit("PARSE", hexs(prog+junk))
+		default:
+			j := strings.Index(prog, "|")
+			if j < 0 {
+				j = 0
+			}
+			emit("PARSE", hexs(prog[:j]+junk+prog[j:]))
+		}
+	}
 	for i := 0; i < nCorrupt; i++ {
 		toks := genProgramToks(nil, 1+rng.Intn(3))
 		for k, n := 0, 1+rng.Intn(2); k < n; k++ {
@@ -770,6 +788,8 @@ var parseCorpus = []string{
 	"T | where `q`(1)", "T | where ()", "T | where (a", "T | where a)", "T | where a b", "T | where", "T | where 1 +", "T | where + ", "T | where a == == b",
 	"T | | count", "T | 5", "T | bogus x", "T |", "| count", "T U", "let x = 1", "let x = 1;", "let = 1; T", "let x 1; T", "let x = ; T", "let x = 1 2; T",
 	"let x = 1; let y = x + 1; T | take y", "T; U", "T !; U", "T | where a == 'unterminated", "T | where `open", "T | where 0x", "T | where a ! b",
+	"\ufeffT | count", "\ufeffT | summarize count() by State", "\ufeffX | join (Y) on Key", "T | where a--b > 0 | count", "T | extend d = x--1, e = 2 | take 5",
+	"let n = 1--2; T | take n", "T | where x > 1e+", "T | where x > 1e", "T | extend y = 3e", "T | where x > .5e", "T | where 2e-x > 1", "T | where x == 1e0",
 	"T | where a\n| count // c\n", "T // only comment", "// nothing", "T | where a // c", "x = p", "T | where x = p",
 }
 
@@ -816,6 +836,43 @@ var paramSets = []map[string]string{
 	{"true": "FALSE", "n": "5"},
 	{"name": "'bob'", "thr": "3.5"},
 }
+
+// weirdParams: parameter VALUES that are not SQL expressions at all.  Only totality (C12) and the
+// model correspondence are checked on these: what such text does to the SQL is the caller's business.
+var weirdParamValues = []string{"", " ", "-", "+", "-1", "+1", "--", "/*", "*/", "'", "\"", "(", ")", "a b", "\x00", "\xff", ";", "$1", "1 + 2", "é"}
+
+var weirdParamSources = []string{
+	"T | where -p > 0", "T | where +p > 0", "T | where -(p) > 0", "T | extend y = p[0]", "T | extend y = p[p]", "let q = p; T | where x == q",
+	"let q = -p; T | where x == -q", "T | where x == p", "T | take p", "T | top p by p", "T | where p in (p, 1)", "T | where not(p)", "T | where isnull(p) and p",
+	"T | join (U | where p) on $left.a == p", "T | project p = p, q = p + 1", "T | summarize count() by p", "T | sort by p", "T | where strcat(p, p) == 'x'",
+	"T | where iff(p, p, p)", "T | where p.a == 1", "T | where `p` == 1", "T | where f(p)", "let p = 1; T | where -p > 0", "let a = p; let p = a; T | take p",
+	"T | render p with (p = p)", "T | as p", "p | count",
+}
+
+func genWeirdParamCases(tier string, emit func(op string, fields ...string)) {
+	for _, src := range weirdParamSources {
+		for _, v := range weirdParamValues {
+			emit("COMPILE", hexs(src), fmtParams(map[string]string{"p": v}))
+			emit("COMPILE", hexs(src), fmtParams(map[string]string{"p": v, "": v, "q": "p"}))
+		}
+	}
+	n := 300
+	if tier == "thorough" {
+		n = 6000
+	}
+	for i := 0; i < n; i++ {
+		names := []string{"p", "n", "lim", "thr", "x", "a"}
+		ps := map[string]string{}
+		for _, nm := range names {
+			if rng.Intn(2) == 0 {
+				ps[nm] = pick(weirdParamValues)
+			}
+		}
+		emit("COMPILE", hexs(genProgram(names, 1+rng.Intn(2), false)), fmtParams(ps))
+	}
+}
+
+func init() { caseSets["weirdparams"] = genWeirdParamCases }
 
 func genCompileCases(tier string, emit func(op string, fields ...string)) {
 	n := 6000
@@ -870,6 +927,10 @@ func genCompileCases(tier string, emit func(op string, fields ...string)) {
 		{"let n = 1; T | take n", "T | take n"},
 		{"let x = 'v'; T | where s == x", "let y = x; T | where s == y"},
 		{"T | where a == p", "let p = 2; T | where a == p"},
+		{"let limit = 10; T | take limit", "let n = limit + 1; T | take n"},
+		{"T | where not(a, b)", "U | count"},
+		{"T | where a == 1 | extend y = strcat() | count", "U | where b == 2 | take 1"},
+		{"T | where $left.a == 1", "let q = 1; U | where b == q"},
 	}
 	for _, pr := range seqPairs {
 		for _, ps := range paramSets {
@@ -954,6 +1015,33 @@ var evalCorpus = []string{
 	"T | where s =~ 'A' | count", "T | where a == null | count", "T | where a != 1 | count", "T | extend n1 = strcat(s, 'x') | take 3",
 	"T | top 1 by a | sort by b | take 1", "T | take 3 | summarize count()", "T | summarize n1 = count() | take 1",
 	"T | project a, b | take 1 | project a", "T | sort by a | project a", "T | sort by a | where b > 0", "T | take 2 | extend n1 = 1 | sort by a",
+	"T | summarize by k | join kind=inner (U) on k | join (V) on k", "T | count | extend k = 1 | join kind=leftouter (U) on k | join (V) on k",
+	"T | summarize n1 = count() by k | where n1 > 0 | join kind=inner (U | project k, n2 = b) on k | join kind=innerunique (V | project k, n3 = c) on k",
+	"T | sort by a desc | where k > 0 | take 2 | summarize n1 = sum(a)", "T | sort by a | extend n1 = a * 2 | take 2 | summarize n2 = min(a), n3 = max(n1) by k",
+}
+
+// genJoinChain: two joins in one pipeline with operators before, between and after them
+// (what a second join sees as its left side is the RESULT of the first, duplicates included)
+func genJoinChain() string {
+	pre := []string{"", "", "summarize by k", "summarize n1 = count() by k", "count | extend k = 1", "where a > 0", "project k, a", "sort by a", "take 3",
+		"summarize by k | where k > 0", "summarize n1 = max(a) by k | sort by n1 | take 2", "extend n1 = a + 1"}
+	mid := []string{"", "", "", "where k > 0", "sort by k", "take 3", "extend n4 = 1", "as x7"}
+	post := []string{"", "", "count", "summarize n5 = count() by k", "sort by k asc | take 2", "project k"}
+	kinds := []string{"", "", "kind=inner ", "kind=innerunique ", "kind=leftouter "}
+	right1 := []string{"U", "U", "U | project k, n2 = b", "U | where b > 0 | project k", "U | project k"}
+	right2 := []string{"V", "V | project k, n3 = c", "V | summarize by k", "V | project k"}
+	parts := []string{"T"}
+	add := func(x string) {
+		if x != "" {
+			parts = append(parts, x)
+		}
+	}
+	add(pick(pre))
+	add("join " + pick(kinds) + "(" + pick(right1) + ") on k")
+	add(pick(mid))
+	add("join " + pick(kinds) + "(" + pick(right2) + ") on k")
+	add(pick(post))
+	return strings.Join(parts, " | ")
 }
 
 func genEvalCases(tier string, emit func(op string, fields ...string)) {
@@ -975,6 +1063,10 @@ func genEvalCases(tier string, emit func(op string, fields ...string)) {
 			joins = 2
 		}
 		emit("EVAL", hexs(genEvalProgram(1+rng.Intn(2), joins)), strconv.Itoa(seed*7))
+	}
+	for i := 0; i < n/8; i++ {
+		seed++
+		emit("EVAL", hexs(genJoinChain()), strconv.Itoa(seed*7))
 	}
 	// exhaustive short operator sequences with fixed small arguments (C02)
 	opsFixed := []string{"where a > 0", "project a, b, k", "extend n9 = a + 1", "summarize n8 = count() by a", "sort by a asc", "sort by b",
